@@ -188,6 +188,10 @@ def _canon_faces(faces):
     return cf
 
 
+FIXED_Q = [[0.3, -0.2, 0.5], [0.0, 0.0, 0.9], [1.3, 0.4, -0.7], [0.0, 0.0, 0.0]]
+FIXED_ANGLES = [0.1, 1.3, 2.9, 4.4, 5.9]
+
+
 def project(obj):
     """name -> value (float arrays, ints, ('exc', type)); index-valued members canonicalised for ConvexPolyhedron."""
     import numpy as np
@@ -234,6 +238,17 @@ def project(obj):
                 out[name] = a
             except Exception:
                 out[name] = ("opaque", tn)
+    # queries that take arguments, at fixed arguments (a query must depend on the current abstract state only, whatever
+    # was asked or cached before): the form factor at four wave vectors, the radial distance at five angles
+    try:
+        fq = np.asarray(obj.compute_form_factor_amplitude(np.array(FIXED_Q)))
+        out["compute_form_factor_amplitude(q)"] = np.concatenate([np.real(fq).ravel(), np.imag(fq).ravel()])
+    except Exception as e:
+        out["compute_form_factor_amplitude(q)"] = ("exc", type(e).__name__)
+    try:
+        out["distance_to_surface(angles)"] = np.asarray(obj.distance_to_surface(np.array(FIXED_ANGLES)), dtype=float)
+    except Exception as e:
+        out["distance_to_surface(angles)"] = ("exc", type(e).__name__)
     if hasattr(obj, "get_face_area"):
         try:
             a = np.asarray(obj.get_face_area(), dtype=float)
